@@ -29,7 +29,7 @@ AEADS = ["GCM", "CCM", "EAX", "SIV", "OCB"]
 
 def plan(tier, seed):
     q = tier == "quick"
-    b = 21 if q else 200
+    b = 21 if q else 205           # quick: 24 long shards = 2 rounds of 12..16; thorough: 48 long shards = 3 rounds of 16
     rep = 1 if q else 2
     specs = []
 
@@ -40,7 +40,7 @@ def plan(tier, seed):
             s.update(kw)
             specs.append(s)
     # long-running shards first, short deterministic ones last (they fill the second wave)
-    add("prim", ciphers=["AES"], n=2 * rep)
+    add("prim", ciphers=["AES"], n=2 if q else 3)
     add("prim", ciphers=["DES", "DES3"])
     add("prim", ciphers=["Blowfish", "CAST"])
     add("prim", ciphers=["ARC2"])
@@ -52,7 +52,7 @@ def plan(tier, seed):
     add("kw")
     for s in STREAMS:
         add("stream", cipher=s)
-    add("bulk", n=1 if q else 4, budget_s=b if q else 300)
+    add("bulk", n=1 if q else 3)
     add("illegal", n=1)
     add("openssl", n=1, cases=150 if q else 600)
     return specs
@@ -332,8 +332,12 @@ def _lib_classic(inst, P, used=None):
     elif mode == "CTR":
         st = P["style"]
         if st == "counter":
-            kw["counter"] = Counter.new(8 * P["w"], prefix=P["prefix"], suffix=P["suffix"], initial_value=P["init"],
-                                        little_endian=P["little"])
+            ckw = {"prefix": P["prefix"], "suffix": P["suffix"], "initial_value": P["init"], "little_endian": P["little"]}
+            # documented defaults are left out when they apply (initial_value=1, empty prefix/suffix, big endian)
+            for k, dflt in (("prefix", b""), ("suffix", b""), ("initial_value", 1), ("little_endian", False)):
+                if ckw[k] == dflt and P.get("defaults"):
+                    del ckw[k]
+            kw["counter"] = Counter.new(8 * P["w"], **ckw)
         elif st == "libchosen":
             if used is not None:
                 kw["nonce"] = used
@@ -424,7 +428,8 @@ def gen_ctr(rng, bs, nblocks, style=None, w=None, little=None):
         init = rng.choice([0, 1, full - 1, full - 2, full - rng.randint(1, 40), (1 << (8 * k)) - rng.randint(1, 20),
                            ((rng.getrandbits(8 * w) >> (8 * k)) << (8 * k)) | ((1 << (8 * k)) - rng.randint(1, 9)),
                            rng.randrange(full), rng.randrange(full)]) % full
-    return {"mode": "CTR", "style": style, "w": w, "prefix": prefix, "suffix": suffix, "little": little, "init": init}
+    return {"mode": "CTR", "style": style, "w": w, "prefix": prefix, "suffix": suffix, "little": little, "init": init,
+            "defaults": rng.random() < 0.5}
 
 
 def gen_classic_P(rng, bs, mode, who, nblocks):
@@ -634,10 +639,10 @@ def aead_case(ctx, inst, mode, nonce, mac_len, parts, m, path, api="one-shot", e
     extra = extra or {}
     who = "caller" if nonce is not None else "none" if mode == "SIV" else "lib"
     aad_len = sum(len(p) for p in parts)
-    ctx.case((name, mode, inst.pclass(), None if nonce is None else len(nonce), mac_len, len(parts), A.lenclass(aad_len, bs),
+    ctx.case((name, mode, inst.pclass(), None if nonce is None else min(len(nonce), 65), mac_len, len(parts), A.lenclass(aad_len, bs),
               tuple(sorted(extra)), pclass, A.lenclass(len(m), bs), path, who, api))
     w = lambda e=None: dict(inst.desc(), mode=mode, nonce=hx(nonce), mac_len=mac_len, aad=[hx(p, 40) for p in parts], aad_len=aad_len,
-                            msg=hx(m), msg_len=len(m), oracle=path, chosen_by=who, api=api, **dict(extra, **(e or {})))
+                            msg=hx(m), message_len=len(m), oracle=path, chosen_by=who, api=api, declared=dict(extra), **(e or {}))
     try:
         c = _aead_lib(inst, mode, nonce, mac_len, extra)
         for p in parts:
@@ -1071,7 +1076,7 @@ def chacha_case(ctx, key, nonce, pos, m, path="model"):
         ctx.sample(w({"ciphertext": ct.hex(), "nonce_used": used.hex()}))
 
 
-def _chacha_pos(rng, nlen):
+def _chacha_pos(rng, nlen, n=4096):
     limit_blocks = 1 << (64 if nlen == 8 else 32)
     r = rng.random()
     if r < 0.2:
@@ -1088,7 +1093,7 @@ def _chacha_pos(rng, nlen):
                           rng.randrange(1 << 64)])
     else:
         blk = rng.randrange(1 << 32)
-    blk = min(blk, limit_blocks - 40)       # stay below the end of the key stream (the limits belong to C11)
+    blk = min(blk, limit_blocks - n // 64 - 3)       # the whole message stays below the end of the key stream (limits belong to C11)
     return 64 * blk + off
 
 
@@ -1207,7 +1212,7 @@ def w_stream(spec, ctx):
             for _ in range(40):
                 chacha_case(ctx, rng.randbytes(32), rng.randbytes(nlen), _chacha_pos(rng, nlen), A.message(rng, rng.choice(L[1:] + [rng.randint(1, 600)])))
             for n in (4096 + 1, big_hi):
-                chacha_case(ctx, rng.randbytes(32), rng.randbytes(nlen), rng.choice([None, _chacha_pos(rng, nlen)]), A.message(rng, n), "composition")
+                chacha_case(ctx, rng.randbytes(32), rng.randbytes(nlen), rng.choice([None, _chacha_pos(rng, nlen, n)]), A.message(rng, n), "composition")
         for n in (0, 1, 65, 300):
             chacha_case(ctx, rng.randbytes(32), None, rng.choice([None, 64, 129]), A.message(rng, n))
         while not ctx.expired():
@@ -1216,8 +1221,8 @@ def w_stream(spec, ctx):
             if rng.random() < 0.12:
                 chacha_case(ctx, key, None, _chacha_pos(rng, 8), A.message(rng, rng.choice(L + [rng.randint(0, 600)] * 4)))
             elif rng.random() < 0.2:
-                chacha_case(ctx, key, rng.randbytes(nlen), _chacha_pos(rng, nlen), A.message(rng, A.rand_big(rng, 64, False, 1024, big_hi)),
-                            rng.choice(["model", "composition", "composition"]))
+                n = A.rand_big(rng, 64, False, 1024, big_hi)
+                chacha_case(ctx, key, rng.randbytes(nlen), _chacha_pos(rng, nlen, n), A.message(rng, n), rng.choice(["model", "composition", "composition"]))
             else:
                 chacha_case(ctx, key, rng.randbytes(nlen), _chacha_pos(rng, nlen), A.message(rng, rng.choice(L + [rng.randint(0, 600)] * 8)),
                             rng.choice(["model", "model", "composition"]))
@@ -1273,7 +1278,7 @@ def w_bulk(spec, ctx):
         elif kind == "chacha":
             nlen = rng.choice([8, 12, 24])
             n = rng.randint(hi16 // 4, hi16) + rng.choice([0, 1, 63])
-            chacha_case(ctx, rng.randbytes(32), rng.randbytes(nlen), _chacha_pos(rng, nlen), A.message(rng, n), "composition")
+            chacha_case(ctx, rng.randbytes(32), rng.randbytes(nlen), _chacha_pos(rng, nlen, n), A.message(rng, n), "composition")
             ctx.count("bulk_max_bytes_chacha_%d" % (n.bit_length() - 1))
         elif kind == "arc4":
             arc4_case(ctx, rng.randbytes(rng.randint(1, 256)), rng.choice([None, 3072]), A.message(rng, rng.randint(hi16 // 4, hi16)), "keyword")
@@ -1283,7 +1288,7 @@ def w_bulk(spec, ctx):
                 salsa_case(ctx, rng.randbytes(rng.choice([16, 32])), rng.randbytes(8), A.message(rng, n))
             else:
                 nlen = rng.choice([8, 12, 24])
-                chacha_case(ctx, rng.randbytes(32), rng.randbytes(nlen), _chacha_pos(rng, nlen), A.message(rng, n), "model")
+                chacha_case(ctx, rng.randbytes(32), rng.randbytes(nlen), _chacha_pos(rng, nlen, n), A.message(rng, n), "model")
 
 
 # =====================================================================================================
